@@ -12,6 +12,8 @@ namespace Nstd.Server.Tr
 open Nstd.Server.C13
 open Nstd.Generated
 
+attribute [local simp] C14.Flags.union C14.Flags.isZero finter fcompl
+
 /-- `ClientImpl::write(data, size, &postponed)` -/
 theorem tr13_write_eq (opq : Nat → Int) (s : St) (d : List Nat) (o : Outcome) (e er : Int) (he : e ≠ 0) :
     let m := ServerTr.write (P13 d o e) opq (d.length : Int) true ⟨s, [], [], er, []⟩
@@ -26,8 +28,9 @@ theorem tr13_write_eq (opq : Nat → Int) (s : St) (d : List Nat) (o : Outcome) 
         simp [P13, hb, hr, hr0, wroteOf, hn]
       · have h3 : ¬ ((d.length : Int) ≤ 0) := by omega
         have hbl : s.backlog = [] := by cases hx : s.backlog <;> simp_all
+        have hdne : d ≠ [] := by intro h; simp [h] at hn
         cases hs : s.suspended <;>
-          simp [P13, hb, hr, wroteOf, hn, h3, hs, setInterest, C14.Flags.union, hbl]
+          simp [P13, hb, hr, wroteOf, hn, h3, hs, setInterest, C14.Flags.union, hbl, hdne]
     | error => simp [P13, hb, hr, wroteOf, he]
     | sent k =>
       cases k with
@@ -44,8 +47,11 @@ theorem tr13_write_eq (opq : Nat → Int) (s : St) (d : List Nat) (o : Outcome) 
           have h5 : ((k : Int) + 1).toNat = k + 1 := by omega
           have h6 : (List.drop (k + 1) d).take (d.length - (k + 1)) = List.drop (k + 1) d := by
             apply List.take_of_length_le; simp
+          have hdne : List.drop (k + 1) d ≠ [] := by
+            intro h; have := congrArg List.length h; simp at this; omega
+          have hlt : k + 1 < d.length := by omega
           cases hs : s.suspended <;>
-            simp [P13, hb, hr, wroteOf, h1, h2, h3, h4, h5, h6, hn, hs, hand, setInterest, C14.Flags.union, hbl]
+            simp [P13, hb, hr, wroteOf, h1, h2, h3, h4, h5, h6, hn, hs, hand, setInterest, C14.Flags.union, hbl, hdne, hlt]
   · have hb' : s.backlog.isEmpty = false := by simpa using hb
     simp [P13, hb', wroteOf]
     omega
@@ -104,6 +110,7 @@ theorem tr13_read_eq (opq : Nat → Int) (s : St) (o : Outcome) (e er : Int) (mx
     have hmx0 : mx ≠ 0 := by omega
     have h1 : ¬ (((min mx s.inbox.length : Nat) : Int) = -1) := by omega
     have h2 : ¬ (((min mx s.inbox.length : Nat) : Int) = 0) := by omega
-    simp [P13, hi', hne, h1, h2, hmx0]
+    have h3 : 0 < min mx s.inbox.length := by omega
+    simp [P13, hi', hne, h1, h2, h3, hmx0]
 
 end Nstd.Server.Tr
